@@ -10,6 +10,7 @@
 //! with the model (time, allocation) but are visible to the monitors.
 mod alloc;
 mod c01;
+mod c11;
 mod c16;
 mod sim;
 mod simdemo;
@@ -40,6 +41,9 @@ pub fn exec_line(line: &str) -> Option<String> {
     }
     if op == "sim" {
         return simop::exec(op, &mut t);
+    }
+    if matches!(op, "rec-life" | "suppress" | "suppress-msg" | "cache-seq") {
+        return c11::exec(op, &mut t);
     }
     None
 }
@@ -76,6 +80,8 @@ fn main() {
                 let mut emit = |line: String| lines.push(line);
                 match prop.as_str() {
                     "C01" => c01::generate(&mut rng, &tier, &mut emit),
+                    "C10" => c11::generate_c10(&mut rng, &tier, &mut emit),
+                    "C11" => c11::generate_c11(&mut rng, &tier, &mut emit),
                     "C16" => c16::generate(&mut rng, &tier, &mut emit),
                     "C19" => c19::generate(&mut rng, &tier, &mut emit),
                     "C13" => c13::generate(&mut rng, &tier, &mut emit),
